@@ -529,6 +529,96 @@ func (s *c06State) exec(f []string) string {
 			out = append(out, s.rec(t))
 		}
 		return strings.Join(out, " ")
+	case "mcount":
+		// one Count over (this swamp, a swamp never created, this swamp): answers in request order
+		ghost := sw + "-never"
+		names := []string{sw, ghost, sw}
+		req := &hydrapb.CountRequest{}
+		for _, n := range names {
+			req.Swamps = append(req.Swamps, &hydrapb.CountRequest_SwampIdentifier{IslandID: island, SwampName: n})
+		}
+		resp, err := gw.Count(ctx, c06Wire(req, &hydrapb.CountRequest{}))
+		if err != nil {
+			return c06Err(err)
+		}
+		if resp == nil {
+			return "nilnil"
+		}
+		resp = c06Wire(resp, &hydrapb.CountResponse{})
+		out := []string{"mcount"}
+		for i, c := range resp.Swamps {
+			if i > 0 {
+				out = append(out, "/")
+			}
+			if i >= len(names) || c.SwampName != names[i] {
+				out = append(out, "?name")
+			}
+			if !c.IsExist {
+				out = append(out, "-")
+			} else {
+				out = append(out, strconv.Itoa(int(c.Count)))
+			}
+		}
+		return strings.Join(out, " ")
+	case "mdel":
+		// one Delete over (a swamp never created, this swamp): the missing swamp is an entry, the next one is still served
+		ghost := sw + "-never"
+		req := &hydrapb.DeleteRequest{Swamps: []*hydrapb.DeleteRequest_SwampKeys{{IslandID: island, SwampName: ghost, Keys: f[1:]},
+			{IslandID: island, SwampName: sw, Keys: f[1:]}}}
+		resp, err := gw.Delete(ctx, c06Wire(req, &hydrapb.DeleteRequest{}))
+		if err != nil {
+			return c06Err(err)
+		}
+		if resp == nil {
+			return "nilnil"
+		}
+		resp = c06Wire(resp, &hydrapb.DeleteResponse{})
+		out := []string{"mdel"}
+		for i, r := range resp.Responses {
+			if i > 0 {
+				out = append(out, "/")
+			}
+			if r.ErrorCode != nil {
+				out = append(out, "ERR:"+r.ErrorCode.String())
+				continue
+			}
+			for _, ks := range r.KeyStatuses {
+				out = append(out, c06Status(ks.Status))
+			}
+		}
+		return strings.Join(out, " ")
+	case "mset":
+		// one Set that names this swamp twice with the same items: the second entry meets what the first one stored
+		req := &hydrapb.SetRequest{}
+		for n := 0; n < 2; n++ {
+			sr := &hydrapb.SwampRequest{IslandID: island, SwampName: sw, CreateIfNotExist: f[1][0] == '1', Overwrite: f[1][1] == '1'}
+			for _, it := range f[2:] {
+				sr.KeyValues = append(sr.KeyValues, s.kvp(it))
+			}
+			req.Swamps = append(req.Swamps, sr)
+		}
+		resp, err := gw.Set(ctx, c06Wire(req, &hydrapb.SetRequest{}))
+		if err != nil {
+			return c06Err(err)
+		}
+		if resp == nil {
+			return "nilnil"
+		}
+		resp = c06Wire(resp, &hydrapb.SetResponse{})
+		out := []string{"mset"}
+		for i, r := range resp.Swamps {
+			if i > 0 {
+				out = append(out, "/")
+			}
+			if r.ErrorCode != nil {
+				out = append(out, "ERR:"+r.ErrorCode.String())
+				continue
+			}
+			for _, ks := range r.KeysAndStatuses {
+				out = append(out, c06Status(ks.Status))
+			}
+		}
+		return strings.Join(out, " ")
 	case "mget":
 		// one Get request over three swamp entries: this swamp, a swamp that was never created, this swamp again
 		ghost := sw + "-never"
@@ -1308,6 +1398,19 @@ func c06RandOp(rng *rand.Rand, meta bool) string {
 	case r < 32:
 		return "get " + strings.Join(c06SomeKeys(rng, 3), " ")
 	case r < 34:
+		switch rng.Intn(4) {
+		case 0:
+			return "mcount"
+		case 1:
+			return "mdel " + strings.Join(c06SomeKeys(rng, 3), " ")
+		case 2:
+			co := c06Pick(rng, []string{"11", "11", "10", "01", "00"})
+			var items []string
+			for _, k := range c06SomeKeys(rng, 2) {
+				items = append(items, c06Item(rng, k, meta && rng.Intn(3) == 0))
+			}
+			return "mset " + co + " " + strings.Join(items, " ")
+		}
 		return "mget " + strings.Join(c06SomeKeys(rng, 3), " ")
 	case r < 38:
 		return "getall"
